@@ -103,8 +103,27 @@ func roundTrip(s *spec, tier string, idx int, k kase) (r result) {
 		return
 	}
 	if err != nil {
-		// "a value whose encoding fails with an error is fine"
-		r.class = "encode-error (allowed): " + ev.MsgClass(stripJSONPrefix(err.Error()))
+		// "decoding the encoded JSON succeeds" is vacuous when there is no encoding: an encoder
+		// that refuses is accepted only for values outside the domain (each with its written reason:
+		// a member the JSON schema makes mandatory is nil, a signature longer than the wire format
+		// allows, an IP address that is neither 4 nor 16 bytes ...). In-domain values must encode.
+		if k.OOD != "" {
+			r.class = "info: out-of-domain value: the encoder refuses it [" + oodClass(k.OOD) + "]: " + ev.MsgClass(stripJSONPrefix(err.Error()))
+			return
+		}
+		if s.InfoOnly {
+			r.class = "info: adjacent type: the encoder refuses a value: " + ev.MsgClass(stripJSONPrefix(err.Error()))
+			return
+		}
+		r.class = "VIOLATION encode error on an in-domain value"
+		inner := err.Error()
+		if i := strings.LastIndex(inner, "for type "); i >= 0 {
+			if j := strings.Index(inner[i:], ": "); j >= 0 {
+				inner = inner[i+j+2:]
+			}
+		}
+		r.sig = fmt.Sprintf("%s: encoding an in-domain value fails: %s", s.Name, ev.MsgClass(inner))
+		r.wit.Detail = "json.Marshal error: " + err.Error()
 		return
 	}
 	r.enc = enc
@@ -271,12 +290,16 @@ func main() {
 		specs := buildSpecs(c.Tier)
 		c.Rule("per type: exhaustive values (enumerated types) or all member assignments with ≤ d non-default members (structured types, d=" +
 			fmt.Sprint(devBound(c.Tier)) + " unless the full product is small) → json.Marshal → json.Unmarshal → semantic equality; " +
+			"an encoder error is accepted only for a value outside the domain (reason written per case), in-domain values must encode; " +
+			"values produced by the real parser: 46 certificates (CreateCertificate output with every key type / signature algorithm it offers, and the same spliced with each signature OID of RFC 3279/4055/5758/8410, unknown OIDs, X25519/DSA/unknown key algorithms), every two-way value of the parsed Certificate through its own JSON; " +
+			"composites: the certificate document json.Marshal(cert) and the handshake log of real connections (pointer and by value), members decoded by their own UnmarshalJSON and compared with the source object; " +
 			"decoder pool: generic JSON tokens + canonical encoding with each key (depth ≤ 3) missing/null/wrong type. " +
 			"distinct = distinct JSON encodings produced per type")
 		c.Assume(
 			"values are marshalled through a pointer (the MarshalJSON methods have pointer receivers) and decoded into a fresh zero value",
 			"equality is semantic: big.Int by value, nil slice = empty slice, net.IP by address (4- and 16-byte forms equal), IP networks by (address, mask) after IPv4 normalisation, time.Time by instant, pkix.Name by the multiset of (attribute type, string value) it denotes (fields or Names view), members tagged json:\"-\" ignored",
-			"domain: values excluded from the equality verdict are listed per type with the reason (negative integers, nil members that the JSON schema marks mandatory, code points for which the code documents a lossy generic form, non-UTF-8 strings, subtree Min/Max ≠ 0); they are still executed and must not panic",
+			"domain: values excluded from the equality verdict are listed per type with the reason (negative integers, nil members that the JSON schema marks mandatory, code points above the declared constants for which the code documents a lossy generic form, non-UTF-8 strings, subtree Min/Max ≠ 0, IP addresses that are neither 4 nor 16 bytes); they are still executed and must not panic. Every value the certificate parser produces is in the domain, except UnknownSignatureAlgorithm as a standalone value, whose non-decodability is pinned by the repository's TestSignatureAlgorithmJSON (inside the certificate document the unknown algorithm does round-trip and is demanded)",
+			"by-value encoding: a survey of every json.Marshal call and MarshalJSON body of /repo (non-test) found no place where a holder of a pointer-receiver type is marshalled non-addressably (holders by value: tls.ClientHello/ServerHello/DigitalSignature/SupportedVersionsExt, json.ECDHParams, x509.JSONCertificate/JSONSubjectKeyInfo/JSONSignatureAlgorithm/JSONValidity, ocsp.Response, crl.RevocationData, verifier.VerificationResult/RevocationInfo; all reached through pointers or slices); the by-value probe of a standalone value therefore stays information, the real composites are asserted",
 			"encoding/json itself is trusted",
 		)
 
@@ -407,6 +430,16 @@ func main() {
 		}
 		c.Distinct.Store(distinct)
 		c.Traces.Store(traces)
+		cov := parsedValueCoverage()
+		c.Set("parser_produced_values", cov)
+		formsOK := true
+		for _, n := range cov["general_name_forms"].(map[string]int) {
+			formsOK = formsOK && n > 0
+		}
+		if n := len(cov["signature_algorithm_values"].([]int)); n < 12 || len(cov["public_key_algorithm_values"].([]int)) < 6 || !formsOK ||
+			len(cov["general_name_forms"].(map[string]int)) != 8 || cov["certificates_with_name_constraints"].(int) == 0 || cov["certificates_with_unknown_extensions"].(int) == 0 {
+			c.Broken("the certificate generator of specs_composite.go no longer produces the intended spread of parsed values: %v", cov)
+		}
 		c.Set("types", types)
 		c.Set("types_checked", len(specs))
 		c.Set("excluded_types", excluded)
